@@ -3,7 +3,7 @@ from __future__ import annotations
 
 import io
 
-from vf import contracts, streams
+from vf import chains, contracts, streams
 from vf.core import rng_for
 from vf.diskcheck import mismatch_detail
 from vf.monitors import call
@@ -17,7 +17,8 @@ RULE = (
     "unaligned, >= buffer, past the end, -1}, readinto, peek, readoffset, readall, tell, and read_sectors where "
     "the class has it) on the same object, for every stream class (QCow2 incl. extended L2, snapshot view and raw "
     "backing; VMDK hosted/stream-optimized/COWD/SE-sparse/flat/multi-extent; VHDX 512/4096; VHD dynamic/fixed; VDI; HDS "
-    "v1/v2; Parallels StorageStream), each history in its own interpreter per DISSECT_STREAM_BUFFER_SIZE in {512, 4096, "
+    "v1/v2; Parallels StorageStream; and the layered kinds VHDX differencing, VMDK delta, Parallels snapshot chain, QCow2-on-QCow2, "
+    "VDI over parent), each history in its own interpreter per DISSECT_STREAM_BUFFER_SIZE in {512, 4096, "
     "8192, 65536, 1 MiB, 4 MiB} (only multiples of the disk's sector size), on images sized to overflow every cache "
     "(>=130 L2/grain tables, >=4200 BAT entries) with revisits. Oracle: shadow (content model, position) after every "
     "operation + icontract postconditions on AlignedStream.read/peek/seek (also fire on internally read streams). "
@@ -33,13 +34,14 @@ MINIMA = {"quick": {"ops": 8000, "sector_ops": 300, "cache_overflow_histories": 
           "thorough": {"ops": 80000}}
 BUFFERS = [512, 4096, 8192, 65536, 1 << 20, 4 << 20]
 MECH = "stream.history"
+LAYERED = ["vhdx-diff", "vmdk-delta", "hdd-snapshots", "qcow2-chain", "vdi-parent"]
 
 
 def plan(tier: str, seed: int) -> list[dict]:
     cases = []
     reps = 4 if tier == "quick" else 16
     for buf in BUFFERS:
-        for kind in streams.KINDS:
+        for kind in streams.KINDS + LAYERED:
             if kind == "vhdx-4k" and buf % 4096:
                 continue
             for r in range(reps):
@@ -68,7 +70,10 @@ def run(case: dict, ctx) -> dict:
         raise RuntimeError(f"buffer size {ustream.STREAM_BUFFER_SIZE} != requested {buf} (environment not applied)")
     rng = rng_for(ctx.seed, ID, case["kind"], buf, case["r"])
     ev0 = contracts.STATE["evals"]
-    o = call(streams.open_kind, case["kind"], rng, ctx, case["overflow"])
+    if case["kind"] in LAYERED:
+        o = call(chains.open_chain, case["kind"], rng, ctx)
+    else:
+        o = call(streams.open_kind, case["kind"], rng, ctx, case["overflow"])
     if not o.ok:
         res["viol"].append({"what": f"open failed on conformant image: {o.brief()}", "mech": MECH, "detail": {"tb": o.tb, "kind": case["kind"]}})
         return res
